@@ -360,6 +360,9 @@ func (g *Gen) Integer() *Schema {
 	if r.Chance(0.2) {
 		s.MultipleOf = Fp(PickOf(r, []float64{2, 3, 5, 10, 1}))
 	}
+	if !g.O.NoFormats && r.Chance(0.1) {
+		s.Format = PickOf(r, []string{"int32", "int64", "uint8"}) // an annotation only
+	}
 	return s
 }
 
@@ -376,6 +379,10 @@ func (g *Gen) Number() *Schema {
 	}
 	if r.Chance(0.2) {
 		s.MultipleOf = Fp(PickOf(r, []float64{0.25, 0.5, 1.5, 2, 3, 1, 1}))
+	}
+	if !g.O.NoFormats && r.Chance(0.12) {
+		// on a number "format" is an annotation (OpenAPI style): it changes nothing about what is valid
+		s.Format = PickOf(r, []string{"float", "double", "decimal"})
 	}
 	return s
 }
